@@ -740,6 +740,34 @@ impl<W: Write> WebPEncoder<W> {
     }
 }
 
+/// Verification hook: `build_huffman_tree` on freshly allocated output arrays.
+#[cfg(image_webp_verif)]
+pub(crate) fn verif_build_huffman_tree(
+    frequencies: &[u32],
+    length_limit: u8,
+) -> (bool, Vec<u8>, Vec<u16>) {
+    let mut lengths = vec![0u8; frequencies.len()];
+    let mut codes = vec![0u16; frequencies.len()];
+    let ok = build_huffman_tree(frequencies, &mut lengths, &mut codes, length_limit);
+    (ok, lengths, codes)
+}
+
+/// Verification hook: `encode_frame` on a caller-supplied writer.
+#[cfg(image_webp_verif)]
+pub(crate) fn verif_encode_frame<W: Write>(
+    writer: W,
+    data: &[u8],
+    width: u32,
+    height: u32,
+    color: ColorType,
+    use_predictor_transform: bool,
+) -> Result<(), EncodingError> {
+    let params = EncoderParams {
+        use_predictor_transform,
+    };
+    encode_frame(writer, data, width, height, color, params)
+}
+
 #[cfg(test)]
 mod tests {
     use rand::RngCore;
